@@ -165,8 +165,8 @@ pub fn search_len(sub: &str, seed: u64, cases: u64, min_len: usize, max_len: usi
                 cfg.cases = per as u32;
                 cfg.failure_persistence = None;
                 cfg.rng_seed = RngSeed::Fixed(seed.wrapping_mul(64).wrapping_add(w as u64).wrapping_add(0x5eed_0000) ^ (sub_hash << 20));
-                cfg.max_shrink_iters = 700;
-                cfg.max_shrink_time = 90_000;
+                cfg.max_shrink_iters = 300;
+                cfg.max_shrink_time = 40_000;
                 cfg.verbose = 0;
                 let mut runner = TestRunner::new(cfg);
                 let col = std::cell::RefCell::new(Collector::default());
